@@ -15,7 +15,7 @@ func init() { register("C08", c08) }
 func c08(c *Ctx) {
 	r := c.R
 	r.Explanation = "Partial: structural necessary conditions for 'never panics / never stays blocked although a successor exists'. (S1) every dereference of the batch pointer returned by getUnlocked is guarded by its ok result (a deleted batch yields nil, and deletion can happen whenever the lock is not held); (S2) condition-variable discipline: Wait sits in a loop that re-evaluates the predicate, is executed with messagesMu held in write mode, the cancellation test precedes it, Add broadcasts after a successful write and InterruptGetNext broadcasts under the lock; (S3) cache coherence: every rewrite or deletion of a stored batch evicts its cache entry in the same critical section, and only found batches are cached; (S4) lock hygiene in the one file the project's textual lock test whitelists: every return releases what it acquired, no read-to-write upgrade. Correctness of GetNext under all interleavings is a schedule property and is not decided."
-	r.Rules = []string{"C08.S1 checked look-ups", "C08.S2 condition-variable discipline", "C08.S3 cache coherence", "C08.S4 lock hygiene"}
+	r.Rules = []string{"C08.S1 checked look-ups", "C08.S2 condition-variable discipline", "C08.S3 cache coherence", "C08.S4 lock hygiene", "C08.S5 tail re-pointing"}
 
 	gu := c.MustFunc("outputstream.(*OutputStream).getUnlocked")
 	if gu == nil {
@@ -459,6 +459,78 @@ func c08(c *Ctx) {
 		if idParam != nil {
 			r.Check(len(defsOf(info, gu.Node(), idParam)) == 0, "C08.S3", gu.Name(), "the requested id is not overwritten", c.P.Pos(gu.Node().Pos()), "parameter has no assignment",
 				"getUnlocked assigns to its id parameter (e.g. as the variable of a range loop): the batch read from disk is cached under a different id and later look-ups of that id return the wrong batch")
+		}
+	}
+
+	// ---------- S3c: the look-up that fills the cache runs under messagesMu at every call site (otherwise a reader can
+	// cache a batch that Add rewrites in between: the eviction in Add comes first and the stale copy is inserted after it)
+	// ---------- S5: Delete re-points the tail only when the deleted id IS the newest batch (equality, not an order test)
+	{
+		n := 0
+		for _, fi := range methods {
+			info := fi.Info()
+			g := c.Graph(fi)
+			var lf *lockFlowResult
+			for _, call := range astx.Calls(fi.Body(), false) {
+				fn := astx.Callee(info, call)
+				if fn == nil || c.P.FuncOf(fn) != gu {
+					continue
+				}
+				if lf == nil {
+					lf = c.lockFlow(fi, g, lockSet{})
+				}
+				n++
+				v := g.VertexOf(call)
+				held := ""
+				if v >= 0 {
+					held = lf.must[v]["OutputStream.messagesMu"]
+				}
+				r.Check(held != "", "C08.S3", fi.Name(), "getUnlocked is called with messagesMu held", c.P.Pos(call.Pos()), "lockset "+lf.must[maxInt(v, 0)].String(),
+					"the cache-filling look-up runs without messagesMu: a concurrent Add can evict the cache entry and rewrite the batch between the read from disk and the cache insert, which then stores the stale batch (NextID = none) for good — readers of that id stay blocked although a successor exists")
+			}
+		}
+		r.Check(n >= 3, "C08.S3", gu.Name(), "call sites of getUnlocked found", c.P.Pos(gu.Node().Pos()), itoa(n), "fewer call sites of getUnlocked than expected")
+		if del := c.P.Func("outputstream.(*OutputStream).Delete"); del != nil {
+			info := del.Info()
+			g := c.Graph(del)
+			lastseenF := c.P.Field("outputstream", "OutputStream", "lastseen")
+			nW := 0
+			for _, v := range g.Nodes() {
+				as, ok := v.Node.(*ast.AssignStmt)
+				if !ok {
+					continue
+				}
+				for _, l := range as.Lhs {
+					se, ok := ast.Unparen(l).(*ast.SelectorExpr)
+					if !ok || astx.FieldSel(info, se) != lastseenF || lastseenF == nil {
+						continue
+					}
+					nW++
+					okEq := false
+					for _, fct := range g.FactsAt(v.ID) {
+						be, ok := ast.Unparen(fct.Expr).(*ast.BinaryExpr)
+						if !ok || fct.Tag != nil {
+							continue
+						}
+						mentionsTail := func(e ast.Expr) bool {
+							found := false
+							ast.Inspect(e, func(m ast.Node) bool {
+								if s2, ok := m.(*ast.SelectorExpr); ok && astx.FieldSel(info, s2) == lastseenF {
+									found = true
+								}
+								return true
+							})
+							return found
+						}
+						if (mentionsTail(be.X) || mentionsTail(be.Y)) && ((be.Op == token.EQL && fct.Val) || (be.Op == token.NEQ && !fct.Val)) {
+							okEq = true
+						}
+					}
+					r.Check(okEq, "C08.S5", del.Name(), "the tail is re-pointed only when the newest batch itself is deleted", c.P.Pos(as.Pos()), "dominated by <deleted id> == <newest id>",
+						"Delete rewrites lastseen on a path where the deleted id was not compared equal to the newest batch's id (e.g. an order test): deleting a non-existing or other id rolls the tail back, the following Add links past an existing batch and readers behind it stay blocked or skip it")
+				}
+			}
+			r.Check(nW >= 1, "C08.S5", del.Name(), "tail re-pointing found", c.P.Pos(del.Node().Pos()), itoa(nW), "Delete no longer re-points lastseen when the newest batch is deleted: GetNext blocks forever behind the deleted batch")
 		}
 	}
 
